@@ -24,8 +24,9 @@ FrameSeq(f) == [c \in DOMAIN f |-> SetToSortedSeq(f[c])]
 EInit == Init /\ hist = <<>>
 
 BeginRec ==
-  IF opk' = "write" THEN [kind |-> "write", groups |-> pending', part |-> (\E i \in DOMAIN pending' : pending'[i].k # NoKey)]
-  ELSE [kind |-> opk', fault |-> faultAt', plan |-> [i \in DOMAIN plan' |-> plan'[i].c],
+  IF opk' = "write" THEN [kind |-> "write", groups |-> pending', part |-> (\E i \in DOMAIN pending' : pending'[i].k # NoKey),
+                          frame |-> FrameSeq(arg')]
+  ELSE [kind |-> opk', fault |-> faultAt', plan |-> [i \in DOMAIN plan' |-> plan'[i].c], frame |-> FrameSeq(arg'),
         newgroups |-> SelectSeq(pending', LAMBDA e : e.g > ng)]
 
 ENext == /\ Next
